@@ -1014,6 +1014,13 @@ class DavSys:
                 hp = g["head_parents"]
                 if delta == 1 and (len(hp) < 2 or hp[1] != pcommits[0]):
                     self.violation("C09", "parent-not-previous-head:%s" % kind, "new commit's parent is %s, previous head was %s" % (hp[1:], pcommits[0]), {"op": op, "coll": coll})
+                elif delta == 1 and coll == tcoll and tname is not None and kind in ("put", "delete") and info.get("success"):
+                    # the one commit of a write to one member differs from its parent (the previous head, audited before) in that member only
+                    ptree = {n: v for n, v in pa["git"]["tree"].items() if n != ".xandikos"}
+                    ntree = {n: v for n, v in g["tree"].items() if n != ".xandikos"}
+                    others = sorted(n for n in set(ptree) | set(ntree) if n != tname and ptree.get(n) != ntree.get(n))
+                    if others:
+                        self.violation("C09", "commit-changes-other-members:%s" % kind, "the commit of a %s of %s also changes %s relative to its parent" % (kind, tname, others), {"op": op, "coll": coll, "others": others})
             if delta == 0 and commits and pcommits and commits[0] != pcommits[0]:
                 self.violation("C09", "head-rewritten:%s" % kind, "HEAD changed without a new commit", {"op": op, "coll": coll})
 
